@@ -339,7 +339,10 @@ class CsServer:
             def do_POST(self):
                 n = int(self.headers.get("Content-Length", 0))
                 body = self.rfile.read(n)
-                got.append(json.loads(urllib.parse.parse_qs(body.decode())["json"][0]))
+                res = json.loads(urllib.parse.parse_qs(body.decode())["json"][0])
+                for r_ in res:
+                    r_["_path"] = self.path
+                got.append(res)
                 self.send_response(200)
                 self.end_headers()
                 self.wfile.write(b"ok")
@@ -374,7 +377,22 @@ def codespeed_part(chk):
                                               "benchmarks": ["B%d" % k for k in range(nb)]}},
                    "experiments": {"X": {"executions": [{"E": {"suites": ["S"]}}]}},
                    "reporting": {"codespeed": {"url": "http://127.0.0.1:%d/" % srv.port}}}
-            failing = {"B%d" % k for k in range(nb) if rng.random() < 0.3}
+            # every third session: two experiments, each reporting to its own Codespeed instance (no common one)
+            two = i % 3 == 1
+            names = ["B%d" % k for k in range(nb)]
+            where = {b: "/" for b in names}
+            if two:
+                del raw["reporting"]
+                raw["benchmark_suites"]["T"] = dict(raw["benchmark_suites"]["S"], benchmarks=["C%d" % k for k in range(rng.randint(1, 2))])
+                raw["experiments"] = {"X": {"executions": [{"E": {"suites": ["S"]}}],
+                                            "reporting": {"codespeed": {"url": "http://127.0.0.1:%d/x/" % srv.port}}},
+                                      "Y": {"executions": [{"E": {"suites": ["T"]}}],
+                                            "reporting": {"codespeed": {"url": "http://127.0.0.1:%d/y/" % srv.port}}}}
+                where = {b: "/x/" for b in names}
+                where.update({b: "/y/" for b in raw["benchmark_suites"]["T"]["benchmarks"]})
+                names = names + raw["benchmark_suites"]["T"]["benchmarks"]
+                chk.count("codespeed_sessions_two_instances")
+            failing = {b for b in names if rng.random() < 0.3}
 
             def script(bench, k, inv):
                 if bench in failing:
@@ -384,6 +402,7 @@ def codespeed_part(chk):
             pre = rng.sample(range(nb), rng.randint(0, nb))
             if pre:
                 session.run_session(raw, script, data_file, argv=["-R"], run_filter=["s:S:B%d" % k for k in pre])
+            pre_names = {"B%d" % k for k in pre}
             argv = ["--commit-id=abc", "--environment=env", "--project=p"] + (["-I"] if final else [])
             ses = session.run_session(raw, script, data_file, argv=argv)
             case = dict(config=raw, final_mode=final, failing=sorted(failing), completed_earlier=pre)
@@ -396,18 +415,28 @@ def codespeed_part(chk):
                 if c[4] == "total":
                     per.setdefault(c[5], []).append(float(c[2]))
             results = [r for req in srv.got for r in req]
+            # per Codespeed instance: at most one result per run there; the instance configured for a run's experiment gets
+            # exactly one.  (In final mode the unchanged code also posts the other experiments' runs to every instance -
+            # not demanded and not forbidden by the property; their values are checked like all others.)
             by_bench = {}
+            seen = set()
             for r in results:
                 b = r["benchmark"].split(" ")[0]
-                if b in by_bench:
-                    chk.violation("C18 one Codespeed result per run", case, "one", r["benchmark"])
-                by_bench[b] = r
-            expect_benches = {"B%d" % k for k in range(nb)} if final else \
-                {"B%d" % k for k in range(nb) if k not in pre or ("B%d" % k) in failing}
-            if set(by_bench) != expect_benches:
-                chk.violation("C18 Codespeed receives a result for every run" + ("" if final else " executed in this session"),
-                              case, sorted(expect_benches), sorted(by_bench))
+                if (r["_path"], b) in seen:
+                    chk.violation("C18 one Codespeed result per run", case, "one", [r["_path"], r["benchmark"]])
+                seen.add((r["_path"], b))
+                if r["_path"] == where.get(b):
+                    by_bench[b] = r
+                else:
+                    by_bench.setdefault("%s@%s" % (b, r["_path"]), r)
+            expect_benches = set(names) if final else {b for b in names if b not in pre_names or b in failing}
+            own = {b for b in by_bench if "@" not in b}
+            if own != expect_benches:
+                chk.violation("C18 Codespeed (the instance configured for the run's experiment) receives a result for every run"
+                              + ("" if final else " executed in this session"), case, sorted(expect_benches), sorted(own))
+            by_bench = {b.split("@")[0] + ("" if "@" not in b else " "): r for b, r in by_bench.items()}
             for b, r in by_bench.items():
+                b = b.strip()
                 xs = per.get(b, [])
                 if b in failing or not xs:
                     if r["result_value"] != -1:
